@@ -20,9 +20,7 @@ import (
 	"fmt"
 	"math/big"
 	"net"
-	"os"
 	"strings"
-	"sync"
 	"testing"
 	"time"
 
@@ -262,200 +260,5 @@ func TestVerifC15Authenticator(t *testing.T) {
 	ok, err := NewTLSAuthenticator(&vc15Svc{endpoint: "grpc://nuts.example.com:5555"}).Authenticate(nodeDID, transport.Peer{Certificate: made["exact"]})
 	if err != nil || !ok.Authenticated {
 		t.Fatalf("vacuity: exact certificate for the exact endpoint is not authenticated: %v", err)
-	}
-}
-
-// ---------------------------------------------------------------------------------------------------------------------
-// connection HISTORIES through the real connection manager (handleInboundStream -> authenticate -> getOrRegister ->
-// registerStream -> observers), with the package's own stream stubs. A connection may be marked Authenticated with DID D only
-// if ITS OWN certificate covers D's NutsComm endpoint host — whatever happened on earlier connections.
-
-type vc15Actor struct {
-	Name   string
-	PeerID transport.PeerID
-	DID    string // node DID header ("" = none)
-	Cert   string // key of the certificate
-}
-
-type vc15DIDSvc struct{}
-
-func (vc15DIDSvc) Resolve(query ssi.URI, _ int) (did.Service, error) {
-	q := query.String()
-	switch {
-	case strings.Contains(q, "did:nuts:victim"):
-		return did.Service{Type: transport.NutsCommServiceType, ServiceEndpoint: "grpc://victim.example.com:5555"}, nil
-	case strings.Contains(q, "did:nuts:attacker"):
-		return did.Service{Type: transport.NutsCommServiceType, ServiceEndpoint: "grpc://attacker.example.org:5555"}, nil
-	}
-	return did.Service{}, errors.New("service not found")
-}
-
-func (vc15DIDSvc) ResolveEx(_ ssi.URI, _ int, _ int, _ map[string]*did.Document) (did.Service, error) {
-	return did.Service{}, errors.New("not used")
-}
-
-type vc15Live struct {
-	stream *stubServerStream
-	done   chan error
-}
-
-func TestVerifC15ConnectionHistories(t *testing.T) {
-	r := ev.Start(t, "C15")
-	defer r.Finish()
-	if os.Getenv("VERIF_REPLAY") != "" {
-		var any map[string]any
-		if !r.ReplayCase(&any) || any["history"] == nil {
-			return
-		}
-	}
-	r.Rule("connection histories of depth <= 3 on a fresh real grpcConnectionManager (handleInboundStream with the package's stream stubs, real tlsAuthenticator): every sequence of " +
-		"toggle(actor) — connect if the actor has no open stream, disconnect otherwise — over actors {victim with its own certificate, victim restarted (new peer ID), attacker with another " +
-		"valid certificate claiming the victim's DID / using the victim's peer ID without a DID / both, attacker under its own DID}. After every event every registered connection and every " +
-		"peer handed to the stream observers is judged: Authenticated with DID D only if the certificate of THAT stream covers D's NutsComm host.")
-	certDesc := map[string]vc15Cert{
-		"victim":   {Name: "victim", CN: "x", DNS: []string{"victim.example.com"}},
-		"attacker": {Name: "attacker", CN: "x", DNS: []string{"attacker.example.org", "*.attacker.example.org"}},
-	}
-	certs := map[string]*x509.Certificate{}
-	for k, c := range certDesc {
-		certs[k] = vc15MakeCert(t, c)
-	}
-	hostOf := map[string]string{"did:nuts:victim": "victim.example.com", "did:nuts:attacker": "attacker.example.org"}
-	actors := []vc15Actor{
-		{"victim", "peer-victim", "did:nuts:victim", "victim"},
-		{"victim-restarted", "peer-victim-2", "did:nuts:victim", "victim"},
-		{"attacker-claims-did", "peer-attacker", "did:nuts:victim", "attacker"},
-		{"attacker-uses-peer-id", "peer-victim", "", "attacker"},
-		{"attacker-claims-both", "peer-victim", "did:nuts:victim", "attacker"},
-		{"attacker-own-did", "peer-attacker", "did:nuts:attacker", "attacker"},
-	}
-	var histories [][]int
-	var rec func(prefix []int)
-	rec = func(prefix []int) {
-		if len(prefix) > 0 {
-			histories = append(histories, append([]int{}, prefix...))
-		}
-		if len(prefix) == 3 {
-			return
-		}
-		for i := range actors {
-			rec(append(prefix, i))
-		}
-	}
-	rec(nil)
-	r.Bound("histories", len(histories))
-	localDID := did.MustParseDID("did:nuts:local")
-	honest := false
-	for hi, hist := range histories {
-		if !r.Mine(hi) || r.Expired() {
-			continue
-		}
-		func() {
-			cm, err := NewGRPCConnectionManager(Config{peerID: "server-peer-id"}, nil, localDID, NewTLSAuthenticator(vc15DIDSvc{}))
-			if err != nil {
-				t.Fatal(err)
-			}
-			var mu sync.Mutex
-			var observed []transport.Peer
-			connected := make(chan struct{}, 16)
-			cm.RegisterObserver(func(peer transport.Peer, state transport.StreamState, _ transport.Protocol) {
-				if state == transport.StateConnected {
-					mu.Lock()
-					observed = append(observed, peer)
-					mu.Unlock()
-					connected <- struct{}{}
-				}
-			})
-			protocol := &TestProtocol{}
-			live := map[int]*vc15Live{}
-			defer func() {
-				for _, l := range live {
-					l.stream.cancelFunc()
-					<-l.done
-				}
-				cm.Stop()
-			}()
-			var names []string
-			priorAuth := map[string]bool{} // peerID/DID combinations authenticated earlier in this history
-			for _, ai := range hist {
-				a := actors[ai]
-				if l, open := live[ai]; open {
-					names = append(names, "disconnect("+a.Name+")")
-					l.stream.cancelFunc()
-					select {
-					case <-l.done:
-					case <-time.After(30 * time.Second):
-						t.Fatalf("harness: stream of %s did not end", a.Name)
-					}
-					delete(live, ai)
-				} else {
-					names = append(names, "connect("+a.Name+")")
-					l := &vc15Live{stream: newServerStream(a.PeerID, a.DID, certs[a.Cert]), done: make(chan error, 1)}
-					go func() { l.done <- cm.handleInboundStream(protocol, l.stream) }()
-					select {
-					case err := <-l.done:
-						r.Outcome("refused: " + fmt.Sprint(err))
-					case <-connected:
-						live[ai] = l
-						r.Outcome("accepted")
-					case <-time.After(30 * time.Second):
-						t.Fatalf("harness: stream of %s neither accepted nor refused", a.Name)
-					}
-				}
-				// judge everything registered and everything the observers were told
-				mu.Lock()
-				obs := append([]transport.Peer{}, observed...)
-				observed = nil
-				mu.Unlock()
-				var peers []transport.Peer
-				for _, c := range cm.connections.All() {
-					peers = append(peers, c.Peer())
-				}
-				peers = append(peers, obs...)
-				for _, p := range peers {
-					if !p.Authenticated {
-						continue
-					}
-					covers := false
-					if p.Certificate != nil && !p.NodeDID.Empty() {
-						for k, c := range certs {
-							if c.Equal(p.Certificate) {
-								covers = vc15Covers(certDesc[k], hostOf[p.NodeDID.String()])
-							}
-						}
-					}
-					if covers {
-						if p.NodeDID.String() == "did:nuts:victim" {
-							honest = true
-						}
-						continue
-					}
-					class := "fresh"
-					if priorAuth[p.ID.String()+"/"+p.NodeDID.String()] {
-						class = "same-peer-id-and-did-authenticated-earlier"
-					} else if priorAuth["*/"+p.NodeDID.String()] {
-						class = "same-did-authenticated-earlier"
-					}
-					r.Violation("C15|connection-history|authenticated-without-covering-certificate|"+class,
-						fmt.Sprintf("after %v a connection is registered as authenticated with node DID %s although its own certificate (%v) does not cover %s",
-							names, p.NodeDID, p.Certificate.DNSNames, hostOf[p.NodeDID.String()]),
-						map[string]any{"history": names})
-				}
-				for _, p := range peers {
-					if p.Authenticated {
-						priorAuth[p.ID.String()+"/"+p.NodeDID.String()] = true
-						priorAuth["*/"+p.NodeDID.String()] = true
-					}
-				}
-				r.Eval(strings.Join(names, ","))
-			}
-		}()
-	}
-	if !honest && !r.Expired() {
-		nsh := 0
-		_, nsh = r.Shard()
-		if nsh == 1 {
-			t.Fatalf("vacuity: the victim with its own certificate was never authenticated")
-		}
 	}
 }
